@@ -282,6 +282,23 @@ CLAIMED["C05"] = {
     "technique": _T + ": delegation-name agreement, homogeneity-degree (dimensional) abstract interpretation of the metric formulas, axis-role agreement between the construction of the confusion matrix and its consumers",
 }
 
+CLAIMED["C06"] = {
+    "text": "Decides the clauses of 'kernel matrices hold the kernel function; hierarchical clustering partitions' that are relations between pieces of the code, for all inputs at once - necessary conditions, not the values: "
+            "the cell (i, j) of the dense matrix and the stored value of the sparse one are KernelMethod::distance of rows i and j of the records, computed with the method passed in, over all rows (a triangle only when it is mirrored), and the sparse pattern comes from adjacency_matrix(records, k, index) with the configured k; "
+            "in KernelMethod::distance every arm uses both operands, the Gaussian arm is exp of a negated sum of squared differences of the zipped operands, the polynomial arm adds its first and raises to its second parameter; "
+            "adjacency_matrix asks the index for k + 1 points, drops the point itself and pushes the diagonal exactly once per row, advances indices / data / counter together, pushes one row pointer per row, builds a square matrix over the rows and combines it with its own transpose by a union (add); "
+            "the merge replay stops on `clusters.len() <= requested` and on `step.dissimilarity >= threshold`, and the test stands before the merge of the step; "
+            "a merge removes step.cluster1 and step.cluster2, inserts the union of both member lists under an id that starts at n and advances by one; "
+            "the label vector has n slots, every member of a cluster receives the running index of that cluster, and it is returned next to the kernel; "
+            "the linkage runs on the -ln transform (floored, ln of the similarity only above the floor) of the kernel's upper triangle, with kernel.size() and the configured linkage method; "
+            "all six Kernel accessors dispatch to the Inner method of their own name in both arms with the argument passed on, the three to_upper_triangle impls keep col > row, Kernel::new / view / to_owned keep the variant, the builder of the variant, the configured neighbour count and the configured method; "
+            "Clone impls, builder methods, accessors and constructors of linfa-kernel and linfa-hierarchical carry what was configured; no generic-float value is narrowed to f32 and stored. "
+            "Not decided: numerical equality of entries, symmetry up to rounding, positive semidefiniteness, which points the index returns, agreement of dense and sparse products and sums, the linkage algorithm itself (kodama), ties.",
+    "design_ref": "DESIGN.md section 4, C06",
+    "note": "Trusted: rustc resolution/typeck, the fact dump; kodama::linkage's documented step numbering; sprs::CsMatBase::new_from_unsorted's argument order. Claimed late in the build (section 5).",
+    "technique": _T + ": index / operand agreement of the matrix fill, sign and operand analysis of the kernel arms, buffer-pairing and once-per-row analysis of the CSR construction, canonical relation and statement order of the stop test, remove / insert pairing of the merge, name agreement of the dispatchers",
+}
+
 CLAIMED["C11"] = {
     "text": "Decides, for all regression datasets at once, the clauses of 'least-squares estimators return a minimiser of their documented objective' that are visible in the shape of the code - necessary conditions, not optimality: "
             "the intercept an elastic-net fit publishes depends on the records (at the optimum it is mean(y) - mean(x).w; an intercept taken from the targets alone is optimal only for centred features - violated by both elastic-net fits of the pinned tree, recorded as a known finding with the failing input); "
@@ -328,7 +345,6 @@ CLAIMED["C17"] = {
 }
 
 NOT_APPLICABLE = {
-    "C06": "kernel entry values, symmetry, PSD-ness, dense/sparse agreement and the merge-replay stop rule are relations between computed floating-point values; no sound static argument in reach bounds them (the hash-order cluster numbering in the same file is decided under C20)",
 }
 
 PENDING = ["C02", "C03", "C04", "C07", "C08", "C09", "C10", "C12", "C13", "C14", "C16", "C18", "C19", "C20"]
